@@ -226,6 +226,27 @@ mut("c13_callback_twice", "C13", "thread.c",
         p_mig_data->f_migration_cb(thread, p_mig_data->p_migration_cb_arg);
     }
     return ABT_SUCCESS;""", "migration callback invoked twice per migration")
+mut("c16_no_rescan_under_lock", "C16", "include/abti_key.h",
+    """    /* The linked list might have been extended. */
+    p_elem = (ABTI_ktelem *)ABTD_atomic_acquire_load_ptr(pp_elem);
+    while (p_elem) {""",
+    """    /* mutant: the list is not re-scanned after taking the lock */
+    p_elem = NULL;
+    while (p_elem) {""", "key table: no re-scan of the chain under the lock (two setters append to the same tail)")
+mut("c16_table_creation_unlocked", "C16", "include/abti_key.h",
+    """            if (ABTD_atomic_bool_cas_weak_ptr(pp_ktable, NULL,
+                                              ABTI_KTABLE_LOCKED)) {""",
+    """            if (ABTD_atomic_acquire_load_ptr(pp_ktable) == NULL) {""", "lazy key-table creation without the CAS lock (two creators, one table lost)")
+mut("c16_destructor_skips_chain", "C16", "key.c",
+    """            p_elem =
+                (ABTI_ktelem *)ABTD_atomic_relaxed_load_ptr(&p_elem->p_next);
+        }
+    }
+    ABTI_ktable_mem_header *p_header =""",
+    """            p_elem = NULL; /* mutant: only the first element of each slot */
+        }
+    }
+    ABTI_ktable_mem_header *p_header =""", "ABTI_ktable_free runs destructors only for the first element of each slot")
 mut("c01_fifo_no_second_empty_check", "C01", "pool/thread_queue.h",
     None, None, "placeholder")
 mut("c03_join_no_final_wait", "C03", "thread.c",
